@@ -163,7 +163,10 @@ int libwifi_get_wpa_data(struct libwifi_frame *frame, struct libwifi_wpa_auth_da
     data->type = auth_data->type;
     data->length = ntohs(auth_data->length);
     data->descriptor = auth_data->descriptor;
-    memcpy(&data->key_info, &auth_data->key_info, sizeof(struct libwifi_wpa_key_info));
+    // Everything but the trailing key data pointer comes from the frame
+    memcpy(&data->key_info, &auth_data->key_info,
+           sizeof(struct libwifi_wpa_key_info) - sizeof(unsigned char *));
+    data->key_info.key_data = NULL;
     data->key_info.information = ntohs(auth_data->key_info.information);
     data->key_info.key_length = ntohs(auth_data->key_info.key_length);
     data->key_info.replay_counter = be64toh(auth_data->key_info.replay_counter);
